@@ -29,13 +29,14 @@ fn arb_sj_value() -> BoxedStrategy<J> {
 		4 => arb_sj_number().prop_map(J::Number),
 		3 => gen::arb_string().prop_map(J::String),
 	];
-	leaf.prop_recursive(4, 48, 6, |inner| {
+	let wide = proptest::collection::vec((gen::arb_long_key(), leaf.clone()), 9..90).prop_map(|es| J::Object(es.into_iter().collect()));
+	let tree = leaf.prop_recursive(4, 48, 6, |inner| {
 		prop_oneof![
 			1 => proptest::collection::vec(inner.clone(), 0..=5).prop_map(J::Array),
 			2 => proptest::collection::vec((gen::arb_key(true), inner), 0..=6).prop_map(|es| J::Object(es.into_iter().collect())),
 		]
-	})
-	.boxed()
+	});
+	prop_oneof![8 => tree, 1 => wide.clone(), 1 => proptest::collection::vec(wide, 1..4).prop_map(J::Array)].boxed()
 }
 
 /// Is this token a non-integer on which serde_json's own FromStr differs from the correctly rounded double?
@@ -266,12 +267,14 @@ fn arb_domain_value(numbers: BoxedStrategy<String>, dups: bool) -> BoxedStrategy
 		4 => numbers.prop_map(RefValue::Num),
 		3 => gen::arb_string().prop_map(RefValue::Str),
 	];
-	let s = leaf.prop_recursive(4, 48, 6, move |inner| {
+	let wide = proptest::collection::vec((prop_oneof![3 => gen::arb_long_key(), 1 => gen::arb_key(dups)], leaf.clone()), 9..90).prop_map(RefValue::Obj);
+	let tree = leaf.prop_recursive(4, 48, 6, move |inner| {
 		prop_oneof![
 			1 => proptest::collection::vec(inner.clone(), 0..=5).prop_map(RefValue::Arr),
 			2 => proptest::collection::vec((gen::arb_key(dups), inner), 0..=6).prop_map(RefValue::Obj),
 		]
 	});
+	let s = prop_oneof![8 => tree, 1 => wide.clone(), 1 => proptest::collection::vec(wide, 1..4).prop_map(RefValue::Arr)];
 	if dups {
 		s.boxed()
 	} else {
